@@ -93,6 +93,7 @@ theorem judgeGrpc_accepts (htab : ∀ c, grpcToHttp c = docTable c) (reqs : List
     cases o with
     | invoked c => simpa [judgeGrpc, shootGrpc, toObs, grpcTruth, grpcProto, htab] using ih
     | unknownMethod => simpa [judgeGrpc, shootGrpc, toObs, grpcTruth, grpcProto, docTable] using ih
+    | invalidAmmo => simpa [judgeGrpc, shootGrpc, toObs, grpcTruth, grpcProto, docTable] using ih
     | marshalErr => simpa [judgeGrpc, shootGrpc, toObs, grpcTruth, grpcProto, docTable] using ih
     | badPayload => simpa [judgeGrpc, shootGrpc, toObs, grpcTruth, grpcProto, docTable] using ih
 
